@@ -26,13 +26,34 @@ def groups(base, tier):
     for r in (0, 1, 2, 3):
         gs.append(dict(base, sec='b_linear', rank=r, level=1))
     gs.append(dict(base, sec='b_diagops', level=1))
+    if base['dtype'] == 'float64':
+        gs.append(dict(base, sec='b_mixed', level=1))
     return gs
+
+
+def cases_mixed(g, tier):
+    """mixed dtypes: one operand real, the other complex (both assignments) for every binary operation family"""
+    srcs = [cases_diagops(g, tier),
+            cases_linear(dict(g, rank=1), tier), cases_linear(dict(g, rank=2), tier),
+            cases_tdot_struct(dict(g, ra=2, rb=2, k=1), tier), cases_tdot_struct(dict(g, ra=2, rb=1, k=1), tier),
+            cases_tdot_struct(dict(g, ra=1, rb=2, k=0), tier)]
+    for src in srcs:
+        for i, case in enumerate(src):
+            if case.get('expect') == 'err':
+                continue
+            va, vb = case['a'].get('var', ['fresh']), case['b'].get('var', ['fresh'])
+            if tier == 'quick' and (va[0] == 'mat' or vb[0] == 'mat' or i % 3):
+                continue
+            for who in ('a', 'b'):
+                c = dict(case)
+                c[who] = dict(case[who], dtype='complex128')
+                yield c
 
 
 def run_group(g, cfg, acc):
     sym = g['sym']
     gen = {'b_tdot_struct': cases_tdot_struct, 'b_tdot_sector': cases_tdot_sector, 'b_linear': cases_linear,
-           'b_diagops': cases_diagops}[g['sec']]
+           'b_diagops': cases_diagops, 'b_mixed': cases_mixed}[g['sec']]
     cache = {}
     for case in gen(g, acc.tier):
         acc.check_time()
